@@ -1219,6 +1219,14 @@ theorem set_elem {v : VM} {ref n k : Nat} {x : Obj} {res : Res} (h : WF v)
     · exact hok y hy
     · exact hx
 
+/-- `WF` does not look at the scratch set of `bind` -/
+theorem wf_bindSeen {v : VM} (h : WF v) (x : List (Nat × Nat × Nat)) : WF { v with bindSeen := x } :=
+  h.update rfl (Ext.refl _) h.heap rfl rfl rfl rfl h.stack
+
+theorem post_bindSeen {v : VM} (h : WF v) (x : List (Nat × Nat × Nat)) {r : Res} (hn : NoPanic r) :
+    Post v ({ v with bindSeen := x }, r) :=
+  ⟨wf_bindSeen h x, Ext.refl _, rfl, hn⟩
+
 def BindProcOK (fuel : Nat) : Prop :=
   ∀ (v : VM) (ref off len depth : Nat), WF v →
     (∃ n, shapeAt v.heap ref = some (.objs n) ∧ off + len ≤ n) → Post v (bindProc fuel v ref off len depth)
@@ -1253,23 +1261,13 @@ theorem bindLoop_step {fuel : Nat} (ihP : BindProcOK fuel) (ihL : BindLoopOK fue
           exact p1.seq (ihL _ ref off depth (i + 1) todo p1.wf ⟨n, p1.ext _ _ hn, by omega⟩)
         · exact ihL v ref off depth (i + 1) todo h hnext
       · next r o l =>
-        have p1 : Post v (v.setCell ref (.objs ((v.getObjs ref).setIfInBounds (off + i) .file)), .ok) :=
-          set_elem h hn (by simp [objOK]) noPanic_ok
         obtain ⟨m, hm, hml⟩ := helem
-        have p2 := ihP _ r o l (depth + 1) p1.wf ⟨m, p1.ext _ _ hm, hml⟩
-        generalize bindProc fuel _ r o l (depth + 1) = p at p2 ⊢
+        have p2 := ihP v r o l (depth + 1) h ⟨m, hm, hml⟩
+        generalize bindProc fuel v r o l (depth + 1) = p at p2 ⊢
         obtain ⟨s2, res⟩ := p
-        dsimp only
-        have p12 := p1.seq p2
-        have hn2 : shapeAt s2.heap ref = some (.objs n) := p12.ext _ _ hn
-        have hproc : objOK s2.heap s2.roots.resources (.proc r o l) := by
-          rw [p12.roots]; exact ⟨m, p12.ext _ _ hm, hml⟩
-        have p3 : Post s2 (s2.setCell ref (.objs ((s2.getObjs ref).setIfInBounds (off + i) (.proc r o l))), res) :=
-          set_elem p2.wf hn2 hproc p2.nopanic
-        have p123 := p12.seq p3
         split
-        · exact p123.seq (ihL _ ref off depth (i + 1) todo p3.wf ⟨n, p3.ext _ _ hn2, by omega⟩)
-        · exact p123
+        · exact p2.seq (ihL s2 ref off depth (i + 1) todo p2.wf ⟨n, p2.ext _ _ hn, by omega⟩)
+        · exact p2
       · exact ihL v ref off depth (i + 1) todo h hnext
 
 theorem bindProc_step {fuel : Nat} (ihL : BindLoopOK fuel) : BindProcOK (fuel + 1) := by
@@ -1277,8 +1275,13 @@ theorem bindProc_step {fuel : Nat} (ihL : BindLoopOK fuel) : BindProcOK (fuel + 
   simp only [bindProc]
   split
   · exact Post.refl h (noPanic_ps _)
-  · obtain ⟨n, hn, hle⟩ := hv
-    exact ihL v ref off depth 0 len h ⟨n, hn, by omega⟩
+  · split
+    · exact Post.refl h noPanic_ok
+    · split
+      · exact Post.refl h noPanic_ok
+      · obtain ⟨n, hn, hle⟩ := hv
+        exact (post_bindSeen h _ noPanic_ok).seq
+          (ihL _ ref off depth 0 len (wf_bindSeen h _) ⟨n, hn, by omega⟩)
 
 theorem bind_ok : ∀ fuel, BindProcOK fuel ∧ BindLoopOK fuel := by
   intro fuel
@@ -1296,9 +1299,21 @@ theorem bBind_post (v : VM) (h : WF v) : Post v (bBind v) := by
   · next r o l rest hst =>
     have hs := h.stack
     rw [hst] at hs
-    exact (bind_ok _).1 v r o l 0 h (hs _ List.mem_cons_self)
+    have p0 : Post v ({ v with bindSeen := [] }, .ok) := post_bindSeen h [] noPanic_ok
+    have p1 := (bind_ok ((heapSlots v + 2) * (maxBindDepth + 3))).1 { v with bindSeen := [] } r o l 0 p0.wf
+      (hs _ List.mem_cons_self)
+    generalize bindProc ((heapSlots v + 2) * (maxBindDepth + 3)) { v with bindSeen := [] } r o l 0 = p at p1 ⊢
+    obtain ⟨s', res⟩ := p
+    exact p0.seq (p1.seq (post_bindSeen p1.wf [] p1.nopanic))
   · exact Post.refl h (noPanic_ps _)
 
+/-- `bind` leaves its scratch set empty -/
+theorem bBind_bindSeen (v : VM) (h0 : v.bindSeen = []) : (bBind v).1.bindSeen = [] := by
+  unfold bBind
+  split
+  · exact h0
+  · rfl
+  · exact h0
 
 /-! ### the CIDInit operators -/
 
@@ -1869,29 +1884,17 @@ theorem bindLoop_fuel_step {fuel : Nat} (ihP : BindProcFuel fuel) (ihL : BindLoo
           exact ⟨q.1, s1.trans q.2⟩
         · exact ihL v ref off depth (i + 1) todo k S h hnext hb hk hk1 hfuel'
       · next r o l =>
-        have p1 : Post v (v.setCell ref (.objs ((v.getObjs ref).setIfInBounds (off + i) .file)), .ok) :=
-          set_elem h hn (by simp [objOK]) noPanic_ok
-        have s1 := set_elem_same (k := off + i) (x := .file) hn
         obtain ⟨m, hm, hml⟩ := helem
-        have p2 := (bind_ok fuel).1 _ r o l (depth + 1) p1.wf ⟨m, p1.ext _ _ hm, hml⟩
-        have q2 := ihP _ r o l (depth + 1) k S p1.wf ⟨m, p1.ext _ _ hm, hml⟩ (hb.of_same s1)
-          (by omega) hk1 (by omega)
-        generalize bindProc fuel _ r o l (depth + 1) = p at p2 q2 ⊢
+        have p2 := (bind_ok fuel).1 v r o l (depth + 1) h ⟨m, hm, hml⟩
+        have q2 := ihP v r o l (depth + 1) k S h ⟨m, hm, hml⟩ hb (by omega) hk1 (by omega)
+        generalize bindProc fuel v r o l (depth + 1) = p at p2 q2 ⊢
         obtain ⟨s2, res⟩ := p
-        dsimp only at q2 ⊢
-        have p12 := p1.seq p2
-        have hn2 : shapeAt s2.heap ref = some (.objs n) := p12.ext _ _ hn
-        have hproc : objOK s2.heap s2.roots.resources (.proc r o l) := by
-          rw [p12.roots]; exact ⟨m, p12.ext _ _ hm, hml⟩
-        have p3 : Post s2 (s2.setCell ref (.objs ((s2.getObjs ref).setIfInBounds (off + i) (.proc r o l))), res) :=
-          set_elem p2.wf hn2 hproc p2.nopanic
-        have s3 := set_elem_same (k := off + i) (x := .proc r o l) hn2
-        have s123 := (s1.trans q2.2).trans s3
+        dsimp only at q2
         split
-        · have q := ihL _ ref off depth (i + 1) todo k S p3.wf ⟨n, p3.ext _ _ hn2, by omega⟩ (hb.of_same s123)
+        · have q := ihL s2 ref off depth (i + 1) todo k S p2.wf ⟨n, p2.ext _ _ hn, by omega⟩ (hb.of_same q2.2)
             hk hk1 hfuel'
-          exact ⟨q.1, s123.trans q.2⟩
-        · exact ⟨q2.1, s123⟩
+          exact ⟨q.1, q2.2.trans q.2⟩
+        · exact ⟨q2.1, q2.2⟩
       · exact ihL v ref off depth (i + 1) todo k S h hnext hb hk hk1 hfuel'
 
 theorem bindProc_fuel_step {fuel : Nat} (ihL : BindLoopFuel fuel) : BindProcFuel (fuel + 1) := by
@@ -1900,11 +1903,16 @@ theorem bindProc_fuel_step {fuel : Nat} (ihL : BindLoopFuel fuel) : BindProcFuel
   split
   · exact ⟨by simp [psErr], SameShape.refl _⟩
   · next hd =>
-    obtain ⟨n, hn, hle⟩ := hv
-    have hlen : len ≤ S := by have := hb ref n hn; omega
-    obtain ⟨k', rfl⟩ : ∃ k', k = k' + 1 := ⟨k - 1, by omega⟩
-    rw [Nat.succ_mul] at hfuel
-    exact ihL v ref off depth 0 len k' S h ⟨n, hn, by omega⟩ hb (by omega) (by omega) (by omega)
+    split
+    · exact ⟨by simp [okRes], SameShape.refl _⟩
+    · split
+      · exact ⟨by simp [okRes], SameShape.refl _⟩
+      · obtain ⟨n, hn, hle⟩ := hv
+        have hlen : len ≤ S := by have := hb ref n hn; omega
+        obtain ⟨k', rfl⟩ : ∃ k', k = k' + 1 := ⟨k - 1, by omega⟩
+        rw [Nat.succ_mul] at hfuel
+        exact ihL _ ref off depth 0 len k' S (wf_bindSeen h _) ⟨n, hn, by omega⟩ hb (by omega) (by omega)
+          (by omega)
 
 theorem bind_fuel : ∀ fuel, BindProcFuel fuel ∧ BindLoopFuel fuel := by
   intro fuel
@@ -1956,10 +1964,12 @@ theorem bBind_no_fuel (v : VM) (h : WF v) : (bBind v).2 ≠ .fuel := by
   · next r o l rest hst =>
     have hs := h.stack
     rw [hst] at hs
-    refine ((bind_fuel _).1 v r o l 0 (maxBindDepth + 2) (heapSlots v) h (hs _ List.mem_cons_self)
-      (bounded_heapSlots v) (by omega) (by omega) ?_).1
-    simp only [maxBindDepth]
-    omega
+    have q := (bind_fuel ((heapSlots v + 2) * (maxBindDepth + 3))).1 { v with bindSeen := [] } r o l 0
+      (maxBindDepth + 2) (heapSlots v) (wf_bindSeen h []) (hs _ List.mem_cons_self)
+      (bounded_heapSlots v) (by omega) (by omega) (by simp only [maxBindDepth]; omega)
+    generalize bindProc ((heapSlots v + 2) * (maxBindDepth + 3)) { v with bindSeen := [] } r o l 0 = p at q ⊢
+    obtain ⟨s', res⟩ := p
+    exact q.1
   · simp [psErr]
 
 
